@@ -427,6 +427,12 @@ func (ex *Exec) appendOp(st *State, c *ssa.CallCommon) string {
 	}
 	g.addFact(fmt.Sprintf("(forall ((p Int)) (! (and (= (%s p) (select %s p)) (=> (and %s (not (and (>= p %s) (< p (+ (s.off %s) %s))))) (= (select %s p) (select %s p))) (=> (and (not %s) (>= p (s.off %s)) (< p %s)) (= (select %s (- p (s.off %s))) (select %s p)))) :pattern ((select %s p))))",
 		OLD, oldArr, inplace, dst, s, nl, na, oldArr, inplace, s, dst, na, s, oldArr, oldArr))
+	if ex.c != nil && ex.c.AppendOldReads {
+		// opt-in (`append-old-reads`): a read of the NEW array at a kept position yields a read of the OLD array, so that
+		// quantified facts about the old contents (loop invariants over all elements) carry over. Off by default: when
+		// source and destination share a backing array this can feed a matching loop.
+		g.addFact(fmt.Sprintf("(forall ((p Int)) (! (= (%s p) (select %s p)) :pattern ((%s p))))", OLD, oldArr, OLD))
+	}
 	res := ex.bind("app.res", "Slice", fmt.Sprintf("(ite %s (mk-slice (s.arr %s) (s.off %s) %s (s.cap %s)) (mk-slice %s 0 %s %s))", inplace, s, s, nl, s, nr, nl, ncap))
 	g.set(st, comp, fmt.Sprintf("(store %s (s.arr %s) %s)", old, res, na))
 	return res
